@@ -124,7 +124,11 @@ class GenBranch:
 
     def signature(self, an: Anchors) -> dict:
         sig = {}
-        sig["factory lookup"] = canon(self.factory_lookup.value, self.roles)
+        # `table[key]` after an `in` test and `table.get(key)` with a None test are the same lookup
+        fl = self.factory_lookup.value
+        if isinstance(fl, ast.Call) and isinstance(fl.func, ast.Attribute) and fl.func.attr == "get" and len(fl.args) == 1:
+            fl = ast.Subscript(value=fl.func.value, slice=fl.args[0], ctx=ast.Load())
+        sig["factory lookup"] = canon(fl, self.roles)
         sig["factory call"] = canon(self.call, self.roles)
         for k, v in self.container_args(an).items():
             sig[f"container.{k}"] = v
@@ -213,55 +217,112 @@ def flag_filter_ok(cond, flag: str) -> bool:
     return False
 
 
+def _local_table_sources(ctx, an: Anchors, h: FuncInfo, name: str, at: int, rd) -> list:
+    """Value expressions a local dict variable was initialised from (reaching `at`)."""
+    out = []
+    for d in rd.at(at, name):
+        info = rd.def_info(d, name)
+        if info and isinstance(info[1], ast.AST) and info[0] == "value":
+            out.append((d, info[1]))
+    return out
+
+
+def inherited_content(ctx, an: Anchors, table: str) -> list:
+    """How the child's `table` gets content from the parent at construction.
+    -> [(func, ast node, kind, detail)] with kind in
+       'fresh' | 'copy_all' | 'comp' (detail = [conds]) | 'loop_store' (detail = (cfg, node, res_var, loop head)) | 'alias' | 'unknown'"""
+    from ..dataflow import ReachingDefs
+
+    a = ctx.a
+    out = []
+    for h in an.init_closure:
+        cfg = a.cfg(h)
+        rd = ReachingDefs(a, h)
+        aliases = set()  # local names that end up bound to self.<table>
+
+        def classify(expr, nid, node):
+            if isinstance(expr, ast.Dict) and not expr.keys:
+                return [(h, node, "fresh", None)]
+            if isinstance(expr, ast.Call) and call_name(expr) == "dict" and not expr.args and not expr.keywords:
+                return [(h, node, "fresh", None)]
+            if isinstance(expr, ast.DictComp):
+                if any(isinstance(x, ast.Attribute) and x.attr == table for g in expr.generators for x in ast.walk(g.iter)):
+                    return [(h, node, "comp", [c for g in expr.generators for c in g.ifs])]
+                return [(h, node, "unknown", "comprehension over something else than a parent table")]
+            if isinstance(expr, ast.Attribute) and expr.attr == table:
+                return [(h, node, "alias", expr)]
+            if isinstance(expr, (ast.Call, ast.Dict)) and any(isinstance(x, ast.Attribute) and x.attr == table for x in ast.walk(expr)):
+                return [(h, node, "copy_all", expr)]
+            if isinstance(expr, ast.Name):
+                res = []
+                aliases.add(expr.id)
+                srcs = _local_table_sources(ctx, an, h, expr.id, nid, rd)
+                if not srcs:
+                    return [(h, node, "unknown", f"local `{expr.id}` has no visible initial value")]
+                for d, v in srcs:
+                    res += classify(v, d, v)
+                return res
+            if isinstance(expr, ast.IfExp):
+                return classify(expr.body, nid, node) + classify(expr.orelse, nid, node)
+            return [(h, node, "unknown", f"`{ast.unparse(expr)}`")]
+
+        for n in cfg.live_nodes():
+            if n.kind == "stmt" and isinstance(n.ast, (ast.Assign, ast.AnnAssign)) and getattr(n.ast, "value", None) is not None:
+                targets = n.ast.targets if isinstance(n.ast, ast.Assign) else [n.ast.target]
+                if any(self_attr(t) == table for t in targets):
+                    out += classify(n.ast.value, n.id, n.ast)
+        # element stores into self.<table> or into a local that becomes the table
+        for n, m in a.func_mutations(h):
+            if not m.depth_key or m.kind not in ("store", "call:setdefault", "call:update"):
+                continue
+            is_table = m.path == ("self", table) or (len(m.path) == 1 and m.path[0] in aliases)
+            if not is_table:
+                continue
+            from .tables import enclosing_loops as _el
+
+            loops = [l for l in _el(h, m.node) if isinstance(l[2], ast.For)]
+            if m.kind == "call:update":
+                out.append((h, m.node, "copy_all", m.node))
+                continue
+            if not loops or not any(isinstance(x, ast.Attribute) and x.attr == table for x in ast.walk(loops[-1][0])):
+                out.append((h, m.node, "unknown", "element store outside a loop over the parent table"))
+                continue
+            it, tgt, lp = loops[-1]
+            val = store_value(m)
+            res_var = val.id if isinstance(val, ast.Name) else None
+            head = [x for x in cfg.live_nodes() if x.kind == "for_next" and x.ast is lp]
+            out.append((h, m.node, "loop_store", (cfg, n, res_var, head[0] if head else None)))
+    return out
+
+
 def rule_r2(ctx, an: Anchors, rule: str = "C04.R2") -> None:
+    from .discharge import implied_within
+
     rep = ctx.rep
     init = an.ctx_method("__init__")
     flag = an.generated_flag
-    binds = []
-    for h in an.init_closure:
-        for n in walk_own(h.node):
-            if isinstance(n, (ast.Assign, ast.AnnAssign)):
-                targets = n.targets if isinstance(n, ast.Assign) else [n.target]
-                if any(self_attr(t) == an.resource_table for t in targets) and n.value is not None:
-                    binds.append(n)
-    if not binds:
+    items = inherited_content(ctx, an, an.resource_table)
+    inheriting = 0
+    if not items:
         rep.unrecognised(rule, init, init.node, "constructor never binds the resource table")
         return
-    inheriting = 0
-    for b in binds:
-        v = b.value
-        if isinstance(v, ast.Dict) and not v.keys:
-            continue
-        if isinstance(v, ast.Call) and call_name(v) == "dict" and not v.args and not v.keywords:
+    for h, node, kind, detail in items:
+        if kind == "fresh":
             continue
         inheriting += 1
-        if isinstance(v, ast.DictComp):
-            src_attrs = {x.attr for g in v.generators for x in ast.walk(g.iter) if isinstance(x, ast.Attribute)}
-            if an.resource_table not in src_attrs:
-                rep.unrecognised(rule, init, b, "resource table comprehension does not iterate a parent's resource table")
-                continue
-            conds = [c for g in v.generators for c in g.ifs]
-            rep.check(
-                rule,
-                any(flag_filter_ok(c, flag) for c in conds),
-                init,
-                b,
-                f"child copies only resources whose {flag} is false",
-                f"child copies the parent's resources without filtering out {flag} ones: generated resources are inherited",
-            )
+        if kind == "comp":
+            rep.check(rule, any(flag_filter_ok(c, flag) for c in detail), h, node, f"child copies only resources whose {flag} is false", f"child copies the parent's resources without filtering out {flag} ones: generated resources are inherited")
+        elif kind in ("copy_all", "alias"):
+            rep.violate(rule, h, node, f"child resource table is bound to `{norm(node) if not isinstance(detail, ast.AST) else norm(detail)}`: generated resources of the parent are inherited (no filter on {flag})")
+        elif kind == "loop_store":
+            cfg, n, res_var, head = detail
+            ok = False
+            if res_var is not None and head is not None:
+                probe = ast.Attribute(value=ast.Name(id=res_var, ctx=ast.Load()), attr=flag, ctx=ast.Load())
+                ok = implied_within(cfg, n.id, probe, "f", [head.id])
+            rep.check(rule, ok, h, node, f"the population loop copies only resources whose {flag} is false", f"constructor copies resources without testing {flag}: generated resources are inherited")
         else:
-            attrs = {x.attr for x in ast.walk(v) if isinstance(x, ast.Attribute)}
-            if an.resource_table in attrs:
-                rep.violate(rule, init, b, f"child resource table is bound to `{norm(v)}`: generated resources of the parent are inherited (no filter on {flag})")
-            else:
-                rep.unrecognised(rule, init, b, f"unrecognised initial value `{norm(v)}` for the resource table")
-    # loop-style population
-    for n, m in ctx.a.func_mutations(init):
-        if m.path == ("self", an.resource_table) and m.depth_key:
-            inheriting += 1
-            guards = [t for t in walk_own(init.node) if isinstance(t, ast.If) and any(x is m.node for x in ast.walk(t))]
-            ok = any(flag_filter_ok(g.test, flag) for g in guards)
-            rep.check(rule, ok, init, m.node, f"population loop copies only non-{flag} resources", f"constructor copies resources without testing {flag}")
+            rep.unrecognised(rule, h, node, f"unrecognised way of initialising the resource table ({detail})")
     if inheriting == 0:
         rep.unrecognised(rule, init, init.node, "constructor has no path that inherits the parent's resources")
     rep.floor(rule, inheriting, 1)
